@@ -54,6 +54,12 @@ func genCase(t *rapid.T) Case {
 	in := vec[rapid.IntRange(0, len(vec)-1).Draw(t, "vec")]
 	cs := Case{Prog: p, X: memberStrings(p, 0, in[0]), Y: memberStrings(p, 1, in[1]),
 		Seed: rapid.Uint64().Draw(t, "seed")}
+	if rapid.IntRange(0, 2).Draw(t, "negstr") == 0 {
+		// Signed members with their top bit set as negative decimal
+		// strings ("-3"), the other way to write them on the command
+		// line.
+		cs.X, cs.Y = negStrings(p, 0, cs.X), negStrings(p, 1, cs.Y)
+	}
 	n := rapid.IntRange(0, 3).Draw(t, "nfrags")
 	for i := 0; i < n; i++ {
 		cs.Frags = append(cs.Frags, rapid.SampledFrom([]int{0, 1, 3, 16, 17, 4095}).Draw(t, "frag"))
@@ -81,6 +87,32 @@ func memberStrings(p *mpcl.Prog, i int, packed string) []string {
 		m.And(m, new(big.Int).Sub(new(big.Int).Lsh(big.NewInt(1), uint(n)), big.NewInt(1)))
 		res = append(res, hexOf(m))
 		ofs += n
+	}
+	return res
+}
+
+// negStrings rewrites the strings of signed integer members whose top bit is
+// set as negative decimal numbers with the same two's complement bits.
+func negStrings(p *mpcl.Prog, i int, strs []string) []string {
+	T := p.Main().Params[i].T
+	var ts []mpcl.Type
+	if T.K == mpcl.KStruct {
+		for _, f := range p.Struct(T.S).Fields {
+			ts = append(ts, f.T)
+		}
+	} else {
+		ts = []mpcl.Type{T}
+	}
+	if len(ts) != len(strs) {
+		return strs
+	}
+	res := append([]string{}, strs...)
+	for k, ft := range ts {
+		v, ok := new(big.Int).SetString(strs[k], 0)
+		if !ok || !ft.Signed() || ft.N < 2 || v.Sign() < 0 || v.Bit(ft.N-1) == 0 || v.BitLen() > ft.N {
+			continue
+		}
+		res[k] = new(big.Int).Sub(v, new(big.Int).Lsh(big.NewInt(1), uint(ft.N))).String()
 	}
 	return res
 }
